@@ -60,6 +60,10 @@ CHECKS = {
             "runtime monitor: each interlock trigger is produced on a restored image, sync is run without and with the override, and the bytes/sizes of every content and parity file plus the directory listings are compared before/after; lock exclusion is tested by holding a first command inside its run with a shim delay while a second command is started",
             "Triggers: all files of a disk missing / rewritten, a non-empty file emptied, a parity file truncated below the required size (aligned and unaligned cuts, any split), blocksize / hashsize changed in the configuration, a recorded disk dropped from the configuration, lock held by another command; alone and mixed with ordinary pending changes, on every disk / level. Refusal must leave every content and parity byte untouched; with the override (or restored configuration, or after the other command ended) the same sync must proceed.",
             "Sampled arrays; 'parity smaller' is produced by truncation, not deletion. Lock pairs whose delay rule did not fire are not counted."),
+    "C15": ("exploration",
+            "runtime monitor under a controlled clock: per-stripe last-check times are laid out with the shim's frozen time, the verified set of one scrub is observed from parity read offsets in the shim event log and from the independently decoded info words before/after, and judged against the documented plan rules; snapshots guard parity and data",
+            "Random layouts (several scrub batches and syncs at chosen fake times, bad marks from real silent errors, files changed since the last sync) x plans full/new/bad/percentage+age/default at a chosen 'now'. Selection (bad always, full, new, quota, age limit, oldest first, no unused quota) and book-keeping (refresh and clearing only when verified correct, bad only on silent errors, unsynced differences never marked, parity/data untouched) are checked on every run; eventual coverage is decided as bounded progress over 13 default scrubs 11 days apart.",
+            "Ties at the limit time may be broken either way (ordering is checked, not a particular choice); 8 s time granularity; hash size 16."),
     "C16": ("exploration",
             "differential monitoring against recorded observations of the reference version: vendored arrays written by the pristine pinned tree are checked and repaired by the current tree; digests, CRCs and parity of stored vectors are recomputed through harnesses linked with the current objects and compared with stored values and frozen reference sources",
             "12 vendored reference arrays (both hash kinds, hash sizes 16/8/4/2, 1..6 parities and z, split layouts, formats 2 and 3, migration in progress, fragmented allocation): check must be clean and fix must reproduce the stored bytes/mtimes/links after removing device subsets (all subsets of size <= N in thorough). 8 seeds x lengths 0..1100 x 2 hash kinds, CRC-32C table and SSE4.2 variants for lengths 0..1100, 180 parity vectors over nd 1..251, np 1..6, both modes.",
